@@ -157,7 +157,12 @@ def parse_rules(ck, pr, ct):
     for e in upto:
         if e[0] == "init":
             i = skip_copies(e[2])
-            labels.append("captured(%s)" % const_int(i["args"][0]) if is_call(i, "QRegularExpressionMatch::captured") and i.get("args") else "init:" + describe(i))
+            if is_call(i, "QRegularExpression::escape") and i.get("args") and is_call(deref_local(pr, i["args"][0]), "QRegularExpressionMatch::captured"):
+                inner_ = skip_copies(deref_local(pr, i["args"][0]))
+                labels.append("captured(%s)" % const_int(inner_["args"][0]))
+                labels.append("escape")
+            else:
+                labels.append("captured(%s)" % const_int(i["args"][0]) if is_call(i, "QRegularExpressionMatch::captured") and i.get("args") else "init:" + describe(i))
         elif e[0] == "assign":
             r = skip_copies(e[2])
             if is_call(r, "QRegularExpression::escape") and r.get("args") and is_ref_to(r["args"][0], vdecl):
@@ -180,15 +185,22 @@ def parse_rules(ck, pr, ct):
         known = all(l.startswith(("captured(", "escape", "replace(", "use")) for l in labels)
         ck.ob("C15-O1", sitestr(pr, cat_asg), False if known else None, "category text history is %s, expected %s" % (" -> ".join(labels), " -> ".join(want)), key="parseRules|category-history")
     # --- O4 consumers
-    def captured_idx(n):
+    def captured_idx(n, depth=0):
         for x in walk(n):
             if is_call(x, "QRegularExpressionMatch::captured") and x.get("args"):
                 return const_int(x["args"][0])
+            if x.get("k") == "ref" and x.get("dk") == "local" and depth < 3:
+                y = deref_local(pr, x)
+                if y.get("id") != x.get("id"):
+                    r_ = captured_idx(y, depth + 1)
+                    if r_ is not None:
+                        return r_
         return None
     t_asg, t_rhs = rule_assigns["type"][0]
-    okt = is_call(t_rhs, "QtLogger::stringToQtMsgType") and captured_idx(t_rhs) == 2
+    okt = is_call(deref_local(pr, t_rhs), "QtLogger::stringToQtMsgType") and captured_idx(t_rhs) == 2
     ck.ob("C15-O4", sitestr(pr, t_asg), okt, "rule type = stringToQtMsgType(captured(2))" if okt else "rule type = %s" % describe(t_rhs), key="parseRules|type-consumer")
     tm_asg, tm_rhs = rule_assigns["typeMatch"][0]
+    tm_rhs = deref_local(pr, tm_rhs)
     isempty = [x for x in walk(tm_rhs) if is_call(x, ("QString::isEmpty", "QString::isNull"))]
     v = None
     if len(isempty) == 1 and captured_idx(tm_rhs) == 2:
@@ -210,6 +222,9 @@ def evaluate(ck, fl, mt):
     F = ck.facts
     g = Graph(fl)
     loops = [l for l in find_loops(fl)]
+    if len(loops) == 1 and loops[0].get("k") == "for" and reverse_scan(ck, fl, g, loops[0], mt):
+        truth_table(ck, mt)
+        return
     ck.require(len(loops) == 1 and loops[0].get("k") == "rangefor", "filter() no longer has exactly one range-for loop")
     loop = loops[0]
     rng = skip_copies(loop.get("range"))
@@ -270,6 +285,57 @@ def evaluate(ck, fl, mt):
         c = g.postdominated(ms, {cond}, keep=keep)
         ck.ob("C15-O2", sitestr(fl, mc), c, "after a %s rule the next rule is examined on every path" % ("matching" if val else "non-matching") if c else
               "after a %s rule the loop can be left early (no longer 'last match wins')" % ("matching" if val else "non-matching"), key="filter|early-exit-%s" % val)
+    truth_table(ck, mt)
+
+
+def reverse_scan(ck, fl, g, loop, mt):
+    """`last match wins` written as a scan from the back that returns the first matching rule's verdict:
+         for (it = m_rules.crbegin(); it != m_rules.crend(); ++it) if ((*it)->matches(c, t)) return (*it)->enabled;  return true;
+    returns True if the idiom was recognised (obligations emitted), False to fall back to the forward form"""
+    init = loop.get("init")
+    if not (isinstance(init, dict) and init.get("k") == "decl" and len(init.get("vars", [])) == 1):
+        return False
+    itv = init["vars"][0]
+    start = skip_copies(itv.get("init"))
+    cond = skip_copies(loop.get("cond"))
+    inc = skip_copies(loop.get("inc"))
+    if not (is_call(start, ("crbegin", "rbegin")) and is_this_field(skip_copies(start).get("obj"), CF + "::m_rules")):
+        return False
+    oke = isinstance(cond, dict) and cond.get("op") == "!=" and any(is_call(a, ("crend", "rend")) and is_this_field(skip_copies(a).get("obj"), CF + "::m_rules") for a in (cond.get("args") or [cond.get("lhs"), cond.get("rhs")]) if isinstance(a, dict))
+    oki = isinstance(inc, dict) and inc.get("op") == "++"
+    ck.ob("C15-O2", sitestr(fl, loop), bool(oke and oki), "rules are scanned from the last to the first (crbegin..crend, ++)" if (oke and oki) else "reverse scan of m_rules not complete: end test=%s, step=%s" % (oke, oki), key="filter|loop-range")
+    mcalls = [n for n in fl.calls() if n.get("fn") == mt.id]
+    ck.require(len(mcalls) == 1, "filter() calls Rule::matches %d times" % len(mcalls))
+    mc = mcalls[0]
+    elem_of = lambda x: unwrap_ptr(deref_local(fl, unwrap_ptr(x)))   # *it, or an alias `const auto &rule = *it`
+    on_elem = is_ref_to(elem_of(mc.get("obj")), itv["decl"])
+    ck.ob("C15-O2", sitestr(fl, mc), on_elem, "matches() is evaluated on the element the iterator points to", key="filter|matches-object")
+    a0 = [x for x in walk(deref_local(fl, mc["args"][0])) if is_call(x, LM + "::category") and obj_is_param(x, fl, 0)]
+    a1 = skip_copies(deref_local(fl, mc["args"][1]))
+    okargs = bool(a0) and is_call(a1, LM + "::type") and obj_is_param(a1, fl, 0) and not lossy_wrappers(deref_local(fl, mc["args"][0]))
+    ck.ob("C15-O3", sitestr(fl, mc), okargs, "matches(lmsg.category(), lmsg.type())" if okargs else "matches(%s)" % ", ".join(describe(a) for a in mc["args"]), key="filter|matches-args")
+    ms = g.site_of(mc)
+    is_m = value_pred(fl, mc)
+    keep_t, keep_f = g.projector(atom_eq(is_m, True)), g.projector(atom_eq(is_m, False))
+    condsite = g.site_of(loop["cond"])
+    inloop = [r for r in returns(fl) if any(a.get("id") == loop["id"] for a in fl.ancestors(r))]
+    after = [r for r in returns(fl) if r not in inloop]
+    okin = len(inloop) == 1 and g.postdominated(ms, {g.site_of(inloop[0])}, keep=keep_t) and g.site_of(inloop[0]) not in g.reach([ms], blocked={condsite}, keep=keep_f, include_start=False)
+    ck.ob("C15-O2", sitestr(fl, mc), okin, "the first match from the back returns immediately (= the last matching rule decides); a non-matching rule does not" if okin else
+          "the scan does not return exactly on a match", key="filter|match-no-overwrite")
+    if inloop:
+        r = skip_copies(inloop[0].get("e"))
+        okw = r.get("k") == "member" and r.get("name") == CF + "::Rule::enabled" and is_ref_to(elem_of(r.get("base")), itv["decl"])
+        ck.ob("C15-O2", sitestr(fl, inloop[0]), okw, "the verdict is the matching rule's own verdict" if okw else "the verdict returned on a match is %s" % describe(r), key="filter|verdict-source")
+    c = g.postdominated(ms, {condsite}, keep=keep_f)
+    ck.ob("C15-O2", sitestr(fl, mc), c, "after a non-matching rule the next (earlier) rule is examined on every path" if c else "after a non-matching rule the scan can stop", key="filter|early-exit-False")
+    okd = len(after) == 1 and const_int(after[0].get("e")) == 1
+    ck.ob("C15-O2", sitestr(fl, after[0]) if after else sitestr(fl), okd, "no rule matches -> pass" if okd else "default verdict is %s" % [describe(x.get("e")) for x in after], key="filter|default-verdict")
+    return True
+
+
+def truth_table(ck, mt):
+    F = ck.facts
     # --- O3 truth table of matches()
     rs = returns(mt)
     ck.require(len(rs) == 1, "Rule::matches has %d returns" % len(rs))
